@@ -451,11 +451,15 @@ type C10Unread struct {
 	ErrKind   string `json:"err_kind"`
 	Ser       bool   `json:"ser"`
 	Stats     bool   `json:"stats,omitempty"`
+	// OtherConn: the Server serves a second connection with one waiting stream handler of its own; before the ending
+	// above, that second connection's transport read fails: its Serve call must return and its handler be cancelled
+	// although the first connection's read loop is parked
+	OtherConn bool `json:"other_conn,omitempty"`
 }
 
 func genC10Unread(t *rapid.T) C10Unread {
 	return C10Unread{Streams: rapid.IntRange(1, 2).Draw(t, "streams"), Bodies: rapid.IntRange(0, 3).Draw(t, "bodies"), HalfClose: rapid.Bool().Draw(t, "half_close"), Unary: rapid.IntRange(0, 2).Draw(t, "unary"),
-		Ending: rapid.SampledFrom([]string{"stop", "stop", "writefail"}).Draw(t, "ending"), ErrKind: rapid.SampledFrom(kit.FaultErrKinds).Draw(t, "err_kind"), Ser: rapid.Bool().Draw(t, "ser"), Stats: rapid.IntRange(0, 3).Draw(t, "stats") == 0}
+		Ending: rapid.SampledFrom([]string{"stop", "stop", "writefail"}).Draw(t, "ending"), ErrKind: rapid.SampledFrom(kit.FaultErrKinds).Draw(t, "err_kind"), Ser: rapid.Bool().Draw(t, "ser"), Stats: rapid.IntRange(0, 3).Draw(t, "stats") == 0, OtherConn: rapid.IntRange(0, 2).Draw(t, "other_conn") == 0}
 }
 
 func execC10Unread(t *testing.T, c C10Unread) (v Verdict) {
@@ -463,7 +467,7 @@ func execC10Unread(t *testing.T, c C10Unread) (v Verdict) {
 	var mu sync.Mutex
 	started, exited, cancelledAtReturn := 0, 0, 0
 	var ctxs []context.Context
-	serveReturned := false
+	serveReturned, otherReturned := false, false
 	var remaining []string
 	res := kit.Bubble(t, func() {
 		svc := kit.NewSvc()
@@ -480,10 +484,18 @@ func execC10Unread(t *testing.T, c C10Unread) (v Verdict) {
 		svc.Stream("w", true, true, func(s grpcServerStream) error { wait(s.Context()); return s.Context().Err() })
 		svc.Unary("uw", func(ctx context.Context, req []byte) ([]byte, error) { wait(ctx); return nil, ctx.Err() })
 		svc.Unary("q", func(ctx context.Context, req []byte) ([]byte, error) { return req, nil })
-		w := kit.NewWorld(kit.Topo{Kind: "direct", Serialize: c.Ser, Clients: 1, Raw: true, Stats: c.Stats}, svc, nil, nil)
+		nconn := 1
+		if c.OtherConn {
+			nconn = 2
+		}
+		w := kit.NewWorld(kit.Topo{Kind: "direct", Serialize: c.Ser, Clients: nconn, Raw: true, Stats: c.Stats}, svc, nil, nil)
 		l := w.Links[0]
 		bg := context.Background()
 		body := kit.Payload{Class: "lit", Lit: []byte("rq")}
+		if c.OtherConn {
+			open := kit.EnvSpec{}
+			_ = w.Links[1].A.Write(bg, open.Build(1, kit.FullMethod("w"), "c1", kit.ServerName))
+		}
 		for i := 0; i < c.Unary; i++ {
 			e := kit.EnvSpec{Body: &body, Wrap: true}
 			_ = l.A.Write(bg, e.Build(uint64(100+i), kit.FullMethod("uw"), "c0", kit.ServerName))
@@ -506,6 +518,11 @@ func execC10Unread(t *testing.T, c C10Unread) (v Verdict) {
 			_ = l.A.Write(bg, e.Build(1, kit.FullMethod("w"), "c0", kit.ServerName))
 		}
 		kit.Settle() // from the second envelope on the read loop is parked on stream 1's one-slot queue
+		if c.OtherConn {
+			w.Links[1].B.FailReads(nil)
+			kit.Settle()
+			otherReturned, _ = w.ServeResult("c1")
+		}
 		switch c.Ending {
 		case "stop":
 			w.Server.Stop()
@@ -541,11 +558,14 @@ func execC10Unread(t *testing.T, c C10Unread) (v Verdict) {
 		v.failf("panic: %v\n%s", res.Panic, res.Stack)
 	}
 	parked := c.Bodies+b2i(c.HalfClose) >= 2
+	if c.OtherConn && !otherReturned {
+		v.failf("Serve did not return for a second connection of the same Server whose transport read had failed (the first connection's read loop parked on an unread stream: %v)", parked)
+	}
 	if !serveReturned {
 		v.failf("Serve did not return after %s (read loop parked on an unread stream: %v; %d messages and half-close=%v sent to a handler that is not receiving)", c.Ending, parked, c.Bodies, c.HalfClose)
 	}
-	if started != c.Streams+c.Unary {
-		v.failf("harness: %d of %d handlers started", started, c.Streams+c.Unary)
+	if started != c.Streams+c.Unary+b2i(c.OtherConn) {
+		v.failf("harness: %d of %d handlers started", started, c.Streams+c.Unary+b2i(c.OtherConn))
 	}
 	if serveReturned && cancelledAtReturn != started {
 		v.failf("Serve has returned but the contexts of %d of %d in-flight handlers are still live", started-cancelledAtReturn, started)
@@ -559,7 +579,7 @@ func execC10Unread(t *testing.T, c C10Unread) (v Verdict) {
 	if len(res.Leaked) > 0 && v.Fail == "" {
 		v.failf("goroutines left at the end of the case: %s", strings.Join(kit.StackSites(res.Leaked), " ;; "))
 	}
-	v.Info = kit.CaseInfo{Labels: []string{"unread", "unread.ending=" + c.Ending, fmt.Sprintf("unread.read_loop_parked=%v", parked), fmt.Sprintf("unread.half_close=%v", c.HalfClose)}, NonTrivial: parked, Key: fmt.Sprintf("%+v", c), Sample: c}
+	v.Info = kit.CaseInfo{Labels: []string{"unread", "unread.ending=" + c.Ending, fmt.Sprintf("unread.read_loop_parked=%v", parked), fmt.Sprintf("unread.half_close=%v", c.HalfClose), fmt.Sprintf("unread.other_conn=%v", c.OtherConn)}, NonTrivial: parked, Key: fmt.Sprintf("%+v", c), Sample: c}
 	return
 }
 
